@@ -198,6 +198,7 @@ func registerMisc(e *Engine) {
 	_ = fmt.Sprintf
 	registerLevelDB(e)
 	registerCodec(e)
+	registerHTTP(e)
 	if os.Getenv("GOSYM_NOSUMMARIES") == "" {
 		registerIRC(e)
 	}
